@@ -94,6 +94,7 @@ def main():
     ok &= bug("RngIso", "RngIso_quick.cfg", [("BugGlobalFallback = FALSE", "BugGlobalFallback = TRUE")], "GlobalUntouched")
     ok &= bug("RngIso", "RngIso_quick.cfg", [("BugSharedInstance = FALSE", "BugSharedInstance = TRUE")], "Reproducible")
     ok &= bug("RngIso", "RngIso_quick.cfg", [("BugCloneShares = FALSE", "BugCloneShares = TRUE")], "Isolated")
+    ok &= bug("RngIso", "RngIso_quick.cfg", [("BugShCoupled = FALSE", "BugShCoupled = TRUE")], "NoDeviateUsedTwice")
     ok &= bug("Purity", "Purity_quick.cfg", [("BugInPlace = FALSE", "BugInPlace = TRUE")], "ArgsUnchanged")
     ok &= bug("CovSched", "CovSched_quick.cfg", [("BugUnordered = FALSE", "BugUnordered = TRUE")], "SameAsSequential")
     ok &= bug("CovSched", "CovSched_quick.cfg", [("BugNoReset = FALSE", "BugNoReset = TRUE")], "NoCarryOver")
